@@ -8,9 +8,9 @@ cd $WT || exit 2
 git checkout -q -- . ; rm -f $PKG/zz_demo_test.go
 git apply --check $SD/patch.diff || { echo "PATCH-DOES-NOT-APPLY"; exit 2; }
 cp $SD/demo_test.go $PKG/zz_demo_test.go
-if go test -vet=off -count=1 -run 'TestDemo|Demo' ./$PKG >/tmp/try_demo_clean.log 2>&1; then echo "demo-on-clean: PASS"; else echo "demo-on-clean: FAIL(!)"; tail -5 /tmp/try_demo_clean.log; fi
+if go test -vet=off -count=1 -run 'Demo|ZZ' ./$PKG >/tmp/try_demo_clean.log 2>&1; then echo "demo-on-clean: PASS"; else echo "demo-on-clean: FAIL(!)"; tail -5 /tmp/try_demo_clean.log; fi
 git apply $SD/patch.diff
-if go test -vet=off -count=1 -run 'TestDemo|Demo' ./$PKG >/tmp/try_demo_mut.log 2>&1; then echo "demo-with-change: PASS(!)"; else echo "demo-with-change: FAIL (as intended)"; fi
+if go test -vet=off -count=1 -run 'Demo|ZZ' ./$PKG >/tmp/try_demo_mut.log 2>&1; then echo "demo-with-change: PASS(!)"; else echo "demo-with-change: FAIL (as intended)"; fi
 rm -f $PKG/zz_demo_test.go
 if go build ./... >/tmp/try_suite.log 2>&1 && go test -vet=off -count=1 ./... >>/tmp/try_suite.log 2>&1; then echo "suite-with-change: PASS"; else echo "suite-with-change: FAIL(!)"; grep -E "^(FAIL|---)" /tmp/try_suite.log | head -5; fi
 git checkout -q -- .
